@@ -173,6 +173,10 @@ impl Inner {
                 if *on == Res::Settle {
                     continue;
                 }
+                // a saturated deadline (`Duration::MAX` and the like) never comes
+                if *d == u64::MAX {
+                    continue;
+                }
                 if best.map_or(true, |(_, bd)| *d < bd) {
                     best = Some((i, *d));
                 }
@@ -475,11 +479,21 @@ pub fn try_run<R: Send + 'static, F: FnOnce() -> R + Send + 'static>(cfg: &Confi
         .stack_size(8 << 20)
         .spawn(move || {
             set_current(rt2.clone(), tid);
-            let r = f();
-            *res2.lock().unwrap() = Some(r);
+            // a scenario that panics (for instance on a lock poisoned by the code under test) is
+            // over, like one that deadlocks: `try_run` returns `None`
+            let r = std::panic::catch_unwind(std::panic::AssertUnwindSafe(f));
             CUR.with(|c| *c.borrow_mut() = None);
             let mut g = rt2.inner.lock().unwrap();
-            g.driver_done = true;
+            match r {
+                Ok(r) => {
+                    *res2.lock().unwrap() = Some(r);
+                    g.driver_done = true;
+                }
+                Err(_) => {
+                    g.aborted = true;
+                    g.deadlocked = true;
+                }
+            }
             rt2.done.notify_all();
         })
         .expect("spawn driver thread");
@@ -511,6 +525,11 @@ pub fn settle(max_ns: u64) -> bool {
 }
 
 /// virtual clock, in ns
+/// a duration in nanoseconds, `u64::MAX` when it does not fit (waits "for ever", `Duration::MAX`)
+pub fn nanos_sat(d: std::time::Duration) -> u64 {
+    u64::try_from(d.as_nanos()).unwrap_or(u64::MAX)
+}
+
 pub fn now_ns() -> u64 {
     current().0.now()
 }
